@@ -8,93 +8,93 @@
 
 size_t vg_k;                                   /* universal index: never assigned */
 unsigned vg_seq;                               /* global order of the captured calls */
-unsigned vg_ra_calls; uint64_t vg_ra_val; uint64_vec *vg_ra_vec;
-unsigned vg_rsv_calls, vg_rsv_seq; size_t vg_rsv_n; ubuf *vg_rsv_u;
-unsigned vg_adv_calls; size_t vg_adv_x[5]; unsigned vg_adv_seq[5];
-unsigned vg_ve_calls; uint32_t vg_ve_val[3]; unsigned vg_ve_seq[3];
-unsigned vg_mc_calls; const void *vg_mc_src[2]; size_t vg_mc_n[2]; unsigned vg_mc_seq[2];
-unsigned vg_reset_calls, vg_reset_seq, vg_app_calls, vg_app_seq; const uint8_t *vg_app_src; size_t vg_app_n; ubuf *vg_app_u, *vg_reset_u;
+/* one ghost record per replaced callee (a single assigns target each: DFCC's write-set bookkeeping loops over the targets) */
+struct { unsigned calls; uint64_t val; uint64_vec *vec; } vg_ra;
+struct { unsigned calls, seq; size_t n; ubuf *u; } vg_rsv;
+struct { unsigned calls; size_t x0, x1, x2, x3, x4; unsigned seq0, seq1, seq2, seq3, seq4; } vg_adv;
+struct { unsigned calls; uint32_t val0, val1, val2; unsigned seq0, seq1, seq2; } vg_ve;
+struct { unsigned calls; const void *src0, *src1; size_t n0, n1; unsigned seq0, seq1; } vg_mc;
+struct { unsigned calls, seq; ubuf *u; } vg_reset;
+struct { unsigned calls, seq; const uint8_t *src; size_t n; ubuf *u; } vg_app;
 
 static unsigned vg_len32(uint32_t v) { return v < (1u << 7) ? 1 : v < (1u << 14) ? 2 : v < (1u << 21) ? 3 : v < (1u << 28) ? 4 : 5; }
 
 void uint64_vec_add__cap(uint64_vec *vec, uint64_t elem)
-__CPROVER_requires(vg_ra_calls == 0)
-__CPROVER_assigns(vec->_n, vg_ra_calls, vg_ra_val, vg_ra_vec)
-__CPROVER_ensures(vec->_n == __CPROVER_old(vec->_n) + 1 && vg_ra_calls == 1 && vg_ra_val == elem && vg_ra_vec == vec)
+__CPROVER_requires(vg_ra.calls == 0)
+__CPROVER_assigns(vec->_n, __CPROVER_object_whole(&vg_ra))
+__CPROVER_ensures(vec->_n == __CPROVER_old(vec->_n) + 1 && vg_ra.calls == 1 && vg_ra.val == elem && vg_ra.vec == vec)
 ;
 void ubuf_reserve__cap(ubuf *u, size_t n)
-__CPROVER_requires(vg_rsv_calls == 0)
-__CPROVER_assigns(vg_rsv_calls, vg_rsv_n, vg_rsv_u, vg_seq, vg_rsv_seq)
-__CPROVER_ensures(vg_rsv_calls == 1 && vg_rsv_n == n && vg_rsv_u == u && vg_seq == __CPROVER_old(vg_seq) + 1 && vg_rsv_seq == vg_seq)
+__CPROVER_requires(vg_rsv.calls == 0)
+__CPROVER_assigns(__CPROVER_object_whole(&vg_rsv), vg_seq)
+__CPROVER_ensures(vg_rsv.calls == 1 && vg_rsv.n == n && vg_rsv.u == u && vg_seq == __CPROVER_old(vg_seq) + 1 && vg_rsv.seq == vg_seq)
 ;
 void ubuf_advance__cap(ubuf *u, size_t x)
-__CPROVER_requires(vg_adv_calls < 5)
-__CPROVER_assigns(u->_n, vg_adv_calls, __CPROVER_object_whole(vg_adv_x), __CPROVER_object_whole(vg_adv_seq), vg_seq)
-__CPROVER_ensures(u->_n == __CPROVER_old(u->_n) + x && vg_adv_calls == __CPROVER_old(vg_adv_calls) + 1 && vg_seq == __CPROVER_old(vg_seq) + 1)
-__CPROVER_ensures(vg_adv_x[__CPROVER_old(vg_adv_calls)] == x && vg_adv_seq[__CPROVER_old(vg_adv_calls)] == vg_seq)
-__CPROVER_ensures(vg_k < 5 && vg_k != __CPROVER_old(vg_adv_calls) ==> (vg_adv_x[vg_k] == __CPROVER_old(vg_adv_x[vg_k]) && vg_adv_seq[vg_k] == __CPROVER_old(vg_adv_seq[vg_k])))
+__CPROVER_requires(vg_adv.calls < 5)
+__CPROVER_assigns(u->_n, __CPROVER_object_whole(&vg_adv), vg_seq)
+__CPROVER_ensures(u->_n == __CPROVER_old(u->_n) + x && vg_adv.calls == __CPROVER_old(vg_adv.calls) + 1 && vg_seq == __CPROVER_old(vg_seq) + 1)
+__CPROVER_ensures(vg_adv.x0 == (__CPROVER_old(vg_adv.calls) == 0 ? x : __CPROVER_old(vg_adv.x0)) && vg_adv.x1 == (__CPROVER_old(vg_adv.calls) == 1 ? x : __CPROVER_old(vg_adv.x1)) && vg_adv.x2 == (__CPROVER_old(vg_adv.calls) == 2 ? x : __CPROVER_old(vg_adv.x2)) && vg_adv.x3 == (__CPROVER_old(vg_adv.calls) == 3 ? x : __CPROVER_old(vg_adv.x3)) && vg_adv.x4 == (__CPROVER_old(vg_adv.calls) == 4 ? x : __CPROVER_old(vg_adv.x4)))
+__CPROVER_ensures(vg_adv.seq0 == (__CPROVER_old(vg_adv.calls) == 0 ? vg_seq : __CPROVER_old(vg_adv.seq0)) && vg_adv.seq1 == (__CPROVER_old(vg_adv.calls) == 1 ? vg_seq : __CPROVER_old(vg_adv.seq1)) && vg_adv.seq2 == (__CPROVER_old(vg_adv.calls) == 2 ? vg_seq : __CPROVER_old(vg_adv.seq2)) && vg_adv.seq3 == (__CPROVER_old(vg_adv.calls) == 3 ? vg_seq : __CPROVER_old(vg_adv.seq3)) && vg_adv.seq4 == (__CPROVER_old(vg_adv.calls) == 4 ? vg_seq : __CPROVER_old(vg_adv.seq4)))
 ;
 size_t mtbl_varint_encode32__cap(uint8_t *ptr, uint32_t v)
-__CPROVER_requires(vg_ve_calls < 3)
-__CPROVER_assigns(vg_ve_calls, __CPROVER_object_whole(vg_ve_val), __CPROVER_object_whole(vg_ve_seq), vg_seq)
-__CPROVER_ensures(__CPROVER_return_value == vg_len32(v) && vg_ve_calls == __CPROVER_old(vg_ve_calls) + 1 && vg_seq == __CPROVER_old(vg_seq) + 1)
-__CPROVER_ensures(vg_ve_val[__CPROVER_old(vg_ve_calls)] == v && vg_ve_seq[__CPROVER_old(vg_ve_calls)] == vg_seq)
-__CPROVER_ensures(vg_k < 3 && vg_k != __CPROVER_old(vg_ve_calls) ==> (vg_ve_val[vg_k] == __CPROVER_old(vg_ve_val[vg_k]) && vg_ve_seq[vg_k] == __CPROVER_old(vg_ve_seq[vg_k])))
+__CPROVER_requires(vg_ve.calls < 3)
+__CPROVER_assigns(__CPROVER_object_whole(&vg_ve), vg_seq)
+__CPROVER_ensures(__CPROVER_return_value == vg_len32(v) && vg_ve.calls == __CPROVER_old(vg_ve.calls) + 1 && vg_seq == __CPROVER_old(vg_seq) + 1)
+__CPROVER_ensures(vg_ve.val0 == (__CPROVER_old(vg_ve.calls) == 0 ? v : __CPROVER_old(vg_ve.val0)) && vg_ve.val1 == (__CPROVER_old(vg_ve.calls) == 1 ? v : __CPROVER_old(vg_ve.val1)) && vg_ve.val2 == (__CPROVER_old(vg_ve.calls) == 2 ? v : __CPROVER_old(vg_ve.val2)))
+__CPROVER_ensures(vg_ve.seq0 == (__CPROVER_old(vg_ve.calls) == 0 ? vg_seq : __CPROVER_old(vg_ve.seq0)) && vg_ve.seq1 == (__CPROVER_old(vg_ve.calls) == 1 ? vg_seq : __CPROVER_old(vg_ve.seq1)) && vg_ve.seq2 == (__CPROVER_old(vg_ve.calls) == 2 ? vg_seq : __CPROVER_old(vg_ve.seq2)))
 ;
 void *memcpy__cap(void *dst, const void *src, size_t n)
-__CPROVER_requires(vg_mc_calls < 2)
-__CPROVER_assigns(vg_mc_calls, __CPROVER_object_whole(vg_mc_src), __CPROVER_object_whole(vg_mc_n), __CPROVER_object_whole(vg_mc_seq), vg_seq)
-__CPROVER_ensures(vg_mc_calls == __CPROVER_old(vg_mc_calls) + 1 && vg_seq == __CPROVER_old(vg_seq) + 1)
-__CPROVER_ensures(vg_mc_src[__CPROVER_old(vg_mc_calls)] == src && vg_mc_n[__CPROVER_old(vg_mc_calls)] == n && vg_mc_seq[__CPROVER_old(vg_mc_calls)] == vg_seq)
-__CPROVER_ensures(vg_k < 2 && vg_k != __CPROVER_old(vg_mc_calls) ==> (vg_mc_src[vg_k] == __CPROVER_old(vg_mc_src[vg_k]) && vg_mc_n[vg_k] == __CPROVER_old(vg_mc_n[vg_k]) && vg_mc_seq[vg_k] == __CPROVER_old(vg_mc_seq[vg_k])))
+__CPROVER_requires(vg_mc.calls < 2)
+__CPROVER_assigns(__CPROVER_object_whole(&vg_mc), vg_seq)
+__CPROVER_ensures(vg_mc.calls == __CPROVER_old(vg_mc.calls) + 1 && vg_seq == __CPROVER_old(vg_seq) + 1)
+__CPROVER_ensures(vg_mc.src0 == (__CPROVER_old(vg_mc.calls) == 0 ? src : __CPROVER_old(vg_mc.src0)) && vg_mc.src1 == (__CPROVER_old(vg_mc.calls) == 1 ? src : __CPROVER_old(vg_mc.src1)))
+__CPROVER_ensures(vg_mc.n0 == (__CPROVER_old(vg_mc.calls) == 0 ? n : __CPROVER_old(vg_mc.n0)) && vg_mc.n1 == (__CPROVER_old(vg_mc.calls) == 1 ? n : __CPROVER_old(vg_mc.n1)))
+__CPROVER_ensures(vg_mc.seq0 == (__CPROVER_old(vg_mc.calls) == 0 ? vg_seq : __CPROVER_old(vg_mc.seq0)) && vg_mc.seq1 == (__CPROVER_old(vg_mc.calls) == 1 ? vg_seq : __CPROVER_old(vg_mc.seq1)))
 ;
 void ubuf_reset__cap(ubuf *u)
-__CPROVER_requires(vg_reset_calls == 0)
-__CPROVER_assigns(u->_n, vg_reset_calls, vg_reset_seq, vg_reset_u, vg_seq)
-__CPROVER_ensures(u->_n == 0 && vg_reset_calls == 1 && vg_reset_u == u && vg_seq == __CPROVER_old(vg_seq) + 1 && vg_reset_seq == vg_seq)
+__CPROVER_requires(vg_reset.calls == 0)
+__CPROVER_assigns(u->_n, __CPROVER_object_whole(&vg_reset), vg_seq)
+__CPROVER_ensures(u->_n == 0 && vg_reset.calls == 1 && vg_reset.u == u && vg_seq == __CPROVER_old(vg_seq) + 1 && vg_reset.seq == vg_seq)
 ;
 void ubuf_append__cap(ubuf *u, uint8_t const *elems, size_t n)
-__CPROVER_requires(vg_app_calls == 0)
-__CPROVER_assigns(u->_n, vg_app_calls, vg_app_seq, vg_app_src, vg_app_n, vg_app_u, vg_seq)
-__CPROVER_ensures(u->_n == __CPROVER_old(u->_n) + n && vg_app_calls == 1 && vg_app_src == elems && vg_app_n == n && vg_app_u == u && vg_seq == __CPROVER_old(vg_seq) + 1 && vg_app_seq == vg_seq)
+__CPROVER_requires(vg_app.calls == 0)
+__CPROVER_assigns(u->_n, __CPROVER_object_whole(&vg_app), vg_seq)
+__CPROVER_ensures(u->_n == __CPROVER_old(u->_n) + n && vg_app.calls == 1 && vg_app.src == elems && vg_app.n == n && vg_app.u == u && vg_seq == __CPROVER_old(vg_seq) + 1 && vg_app.seq == vg_seq)
 ;
 
 #define VG_OLD_LAST __CPROVER_old(b->last_key->_n)
-#define VG_SHARED ((size_t)vg_ve_val[0])
+#define VG_SHARED ((size_t)vg_ve.val0)
 #define VG_RESTART (__CPROVER_old(b->counter) == b->block_restart_interval)
 void block_builder_add__spec(struct block_builder *b, const uint8_t *key, size_t len_key, const uint8_t *val, size_t len_val)
 __CPROVER_requires(__CPROVER_is_fresh(b, sizeof(*b)) && __CPROVER_is_fresh(b->buf, sizeof(ubuf)) && __CPROVER_is_fresh(b->last_key, sizeof(ubuf)) && __CPROVER_is_fresh(b->restarts, sizeof(uint64_vec)))
 __CPROVER_requires(b->counter <= b->block_restart_interval && !b->finished)
 __CPROVER_requires(len_key <= UINT32_MAX && len_val <= UINT32_MAX && b->last_key->_n <= UINT32_MAX && b->buf->_n <= ((size_t)1 << 50) && b->restarts->_n <= ((size_t)1 << 40))
 __CPROVER_requires(__CPROVER_is_fresh(b->last_key->_v, b->last_key->_n + 1) && __CPROVER_is_fresh(key, len_key + 1))
-__CPROVER_requires(vg_seq == 0 && vg_ra_calls == 0 && vg_rsv_calls == 0 && vg_adv_calls == 0 && vg_ve_calls == 0 && vg_mc_calls == 0 && vg_reset_calls == 0 && vg_app_calls == 0)
-__CPROVER_assigns(b->counter, b->buf->_n, b->last_key->_n, b->restarts->_n, vg_seq, vg_ra_calls, vg_ra_val, vg_ra_vec, vg_rsv_calls, vg_rsv_n, vg_rsv_u, vg_rsv_seq, vg_adv_calls,
-                  __CPROVER_object_whole(vg_adv_x), __CPROVER_object_whole(vg_adv_seq), vg_ve_calls, __CPROVER_object_whole(vg_ve_val), __CPROVER_object_whole(vg_ve_seq),
-                  vg_mc_calls, __CPROVER_object_whole(vg_mc_src), __CPROVER_object_whole(vg_mc_n), __CPROVER_object_whole(vg_mc_seq),
-                  vg_reset_calls, vg_reset_seq, vg_reset_u, vg_app_calls, vg_app_seq, vg_app_src, vg_app_n, vg_app_u)
+__CPROVER_requires(vg_seq == 0 && vg_ra.calls == 0 && vg_rsv.calls == 0 && vg_adv.calls == 0 && vg_ve.calls == 0 && vg_mc.calls == 0 && vg_reset.calls == 0 && vg_app.calls == 0)
+__CPROVER_assigns(b->counter, b->buf->_n, b->last_key->_n, b->restarts->_n, vg_seq, __CPROVER_object_whole(&vg_ra), __CPROVER_object_whole(&vg_rsv), __CPROVER_object_whole(&vg_adv), __CPROVER_object_whole(&vg_ve), __CPROVER_object_whole(&vg_mc), __CPROVER_object_whole(&vg_reset), __CPROVER_object_whole(&vg_app))
 /* restart cadence: a restart point is recorded exactly when restart-interval entries have been added since the last one; it
  * is the offset at which this entry starts */
-__CPROVER_ensures(vg_ra_calls == (VG_RESTART ? 1 : 0))
-__CPROVER_ensures(VG_RESTART ==> (vg_ra_vec == b->restarts && vg_ra_val == __CPROVER_old(b->buf->_n) && b->restarts->_n == __CPROVER_old(b->restarts->_n) + 1 && b->counter == 1))
+__CPROVER_ensures(vg_ra.calls == (VG_RESTART ? 1 : 0))
+__CPROVER_ensures(VG_RESTART ==> (vg_ra.vec == b->restarts && vg_ra.val == __CPROVER_old(b->buf->_n) && b->restarts->_n == __CPROVER_old(b->restarts->_n) + 1 && b->counter == 1))
 __CPROVER_ensures(!VG_RESTART ==> (b->restarts->_n == __CPROVER_old(b->restarts->_n) && b->counter == __CPROVER_old(b->counter) + 1))
 /* the entry header: shared, non_shared, value length -- three varints, in that order */
-__CPROVER_ensures(vg_ve_calls == 3 && vg_ve_seq[0] < vg_ve_seq[1] && vg_ve_seq[1] < vg_ve_seq[2] && vg_ve_val[1] == len_key - VG_SHARED && vg_ve_val[2] == len_val)
+__CPROVER_ensures(vg_ve.calls == 3 && vg_ve.seq0 < vg_ve.seq1 && vg_ve.seq1 < vg_ve.seq2 && vg_ve.val1 == len_key - VG_SHARED && vg_ve.val2 == len_val)
 /* shared = 0 at a restart point, otherwise the LONGEST common prefix with the previous key */
 __CPROVER_ensures(VG_RESTART ==> VG_SHARED == 0)
 __CPROVER_ensures(VG_SHARED <= len_key && VG_SHARED <= VG_OLD_LAST)
 __CPROVER_ensures(vg_k < VG_SHARED ==> b->last_key->_v[vg_k] == key[vg_k])
 __CPROVER_ensures(!VG_RESTART ==> (VG_SHARED == len_key || VG_SHARED == VG_OLD_LAST || b->last_key->_v[VG_SHARED] != key[VG_SHARED]))
 /* then the key suffix and the value are copied, in that order, each directly after the preceding piece */
-__CPROVER_ensures(vg_mc_calls == 2 && vg_mc_src[0] == key + VG_SHARED && vg_mc_n[0] == len_key - VG_SHARED && vg_mc_src[1] == val && vg_mc_n[1] == len_val && vg_ve_seq[2] < vg_mc_seq[0] && vg_mc_seq[0] < vg_mc_seq[1])
-__CPROVER_ensures(vg_adv_calls == 5 && vg_adv_x[0] == vg_len32(vg_ve_val[0]) && vg_adv_x[1] == vg_len32(vg_ve_val[1]) && vg_adv_x[2] == vg_len32(vg_ve_val[2]) && vg_adv_x[3] == vg_mc_n[0] && vg_adv_x[4] == vg_mc_n[1])
-__CPROVER_ensures(vg_ve_seq[0] < vg_adv_seq[0] && vg_adv_seq[0] < vg_ve_seq[1] && vg_ve_seq[1] < vg_adv_seq[1] && vg_adv_seq[1] < vg_ve_seq[2] && vg_ve_seq[2] < vg_adv_seq[2]
-                  && vg_adv_seq[2] < vg_mc_seq[0] && vg_mc_seq[0] < vg_adv_seq[3] && vg_adv_seq[3] < vg_mc_seq[1] && vg_mc_seq[1] < vg_adv_seq[4])
+__CPROVER_ensures(vg_mc.calls == 2 && vg_mc.src0 == key + VG_SHARED && vg_mc.n0 == len_key - VG_SHARED && vg_mc.src1 == val && vg_mc.n1 == len_val && vg_ve.seq2 < vg_mc.seq0 && vg_mc.seq0 < vg_mc.seq1)
+__CPROVER_ensures(vg_adv.calls == 5 && vg_adv.x0 == vg_len32(vg_ve.val0) && vg_adv.x1 == vg_len32(vg_ve.val1) && vg_adv.x2 == vg_len32(vg_ve.val2) && vg_adv.x3 == vg_mc.n0 && vg_adv.x4 == vg_mc.n1)
+__CPROVER_ensures(vg_ve.seq0 < vg_adv.seq0 && vg_adv.seq0 < vg_ve.seq1 && vg_ve.seq1 < vg_adv.seq1 && vg_adv.seq1 < vg_ve.seq2 && vg_ve.seq2 < vg_adv.seq2
+                  && vg_adv.seq2 < vg_mc.seq0 && vg_mc.seq0 < vg_adv.seq3 && vg_adv.seq3 < vg_mc.seq1 && vg_mc.seq1 < vg_adv.seq4)
 /* room is reserved before anything is written, for at least the bytes written */
-__CPROVER_ensures(vg_rsv_calls == 1 && vg_rsv_u == b->buf && vg_rsv_seq < vg_ve_seq[0] && vg_rsv_n >= vg_adv_x[0] + vg_adv_x[1] + vg_adv_x[2] + vg_adv_x[3] + vg_adv_x[4])
+__CPROVER_ensures(vg_rsv.calls == 1 && vg_rsv.u == b->buf && vg_rsv.seq < vg_ve.seq0 && vg_rsv.n >= vg_adv.x0 + vg_adv.x1 + vg_adv.x2 + vg_adv.x3 + vg_adv.x4)
 /* the block grows by exactly header + key suffix + value (this is what the writer's block-size gate relies on) */
-__CPROVER_ensures(b->buf->_n == __CPROVER_old(b->buf->_n) + vg_len32(vg_ve_val[0]) + vg_len32(vg_ve_val[1]) + vg_len32(vg_ve_val[2]) + (len_key - VG_SHARED) + len_val)
+__CPROVER_ensures(b->buf->_n == __CPROVER_old(b->buf->_n) + vg_len32(vg_ve.val0) + vg_len32(vg_ve.val1) + vg_len32(vg_ve.val2) + (len_key - VG_SHARED) + len_val)
 /* the remembered key becomes this key */
-__CPROVER_ensures(vg_reset_calls == 1 && vg_app_calls == 1 && vg_reset_u == b->last_key && vg_app_u == b->last_key && vg_reset_seq < vg_app_seq && vg_app_src == key && vg_app_n == len_key && b->last_key->_n == len_key && vg_mc_seq[1] < vg_reset_seq)
+__CPROVER_ensures(vg_reset.calls == 1 && vg_app.calls == 1 && vg_reset.u == b->last_key && vg_app.u == b->last_key && vg_reset.seq < vg_app.seq && vg_app.src == key && vg_app.n == len_key && b->last_key->_n == len_key && vg_mc.seq1 < vg_reset.seq)
 ;
 void h_bb_add_dfcc(void)
 {
